@@ -97,7 +97,14 @@ Section Msg.
     | h :: rs =>
         if negb ((27 <=? h) && (h <=? 34)) then None else
         do dg <- message_digest msg_utf8;
-        recover (be_val dg) (be_val (firstn 32 rs)) (be_val (skipn 32 rs)) ((h - 27) mod 4)
+        let e := be_val dg in let r := be_val (firstn 32 rs) in let s := be_val (skipn 32 rs) in
+        let recid := (h - 27) mod 4 in
+        if recid <? 2 then recover e r s recid
+        else if p <=? r + n then None                    (* D14 repair: R.x = r + n must be a field element ... *)
+        else match recover e r s recid with              (* ... and the recovered key must verify (verify_digest raises otherwise) *)
+             | Some Q => if ecdsa_verify Q e r s then Some Q else None
+             | None => None
+             end
     | [] => None
     end.
 End Msg.
